@@ -205,7 +205,7 @@ pub fn encode_prefix_int_padded(out: &mut Vec<u8>, flags: u8, prefix_bits: u32, 
 #[derive(Debug, Clone, PartialEq, Eq)]
 pub enum QErr {
     Truncated,
-    /// integer does not fit in 62 bits (RFC 9204 §4.1.1 only requires 62 bits to be supported)
+    /// integer does not fit in 64 bits (RFC 9204 §4.1.1 only requires 62 bits to be supported)
     IntegerTooLarge,
     Dynamic,
     BadIndex(u64),
@@ -216,7 +216,7 @@ pub enum QErr {
 }
 
 /// decode a prefix integer with unbounded precision: returns (flags, value) where value is
-/// `None` when it exceeds 2^62-1 (after consuming the whole integer)
+/// `None` when it cannot be represented in 64 bits (after consuming the whole integer)
 pub fn decode_prefix_int(b: &[u8], pos: &mut usize, prefix_bits: u32) -> Result<(u8, Option<u64>), QErr> {
     let first = *b.get(*pos).ok_or(QErr::Truncated)?;
     *pos += 1;
@@ -244,7 +244,7 @@ pub fn decode_prefix_int(b: &[u8], pos: &mut usize, prefix_bits: u32) -> Result<
             break;
         }
     }
-    if too_large || value > crate::VARINT_MAX as u128 {
+    if too_large || value > u64::MAX as u128 {
         Ok((flags, None))
     } else {
         Ok((flags, Some(value as u64)))
